@@ -226,6 +226,20 @@ Definition first_has_elem (n : notif) : bool :=
 Definition zmax_opt (o : option Z) (z : Z) : option Z :=
   match o with None => Some z | Some y => Some (Z.max y z) end.
 
+(** is the notification tracked -- the rule of Target.GnmiUpdate, decided on the
+    FIRST update: its index path (the raw index list without the target) is
+    non-empty and does not start with "meta" (round 7: an EMPTY index path of the
+    first update is untracked too, as in the code: [len(p) > 1 && p[1] != "meta"];
+    agreement with [CacheModel.tracks_ts]: C15History.kp_tracked_agrees).
+    Acceptance ([accepted_any]): every error of a multi notification comes from an
+    update unit -- gnmiRemove returns no error (C15History.multi_accept_is_fewer_errors)
+    -- so "fewer errors than updates" is exactly the updateTS flag of the code. *)
+Definition kp_tracked (n : notif) : bool :=
+  match upd_index (first_unit n) with
+  | Some (k :: _) => negb (String.eqb k "meta")
+  | _ => false
+  end.
+
 Definition kt_next (prev : list (string * tobs)) (ks : list (string * kt)) (o : mop) (ob : mobs)
   : list (string * kt) :=
   (* deletes of metadata leaves announced in this step, per target *)
@@ -245,15 +259,10 @@ Definition kt_next (prev : list (string * tobs)) (ks : list (string * kt)) (o : 
       | Some pr =>
           let t := gp_target pr in
           let existed := match assoc t prev with Some b => to_has b | None => false end in
-          if existed && accepted_any n (o_res ob) then
-            match upd_index (first_unit n) with
-            | Some p =>
-                if is_meta_path p then ks1
-                else let k := kget ks1 t in
-                     aset t (KT (k_meta_del k) (zmax_opt (k_latest k) (n_ts n))
-                                (k_blind k || negb (first_has_elem n))) ks1
-            | None => ks1
-            end
+          if existed && accepted_any n (o_res ob) && kp_tracked n then
+            let k := kget ks1 t in
+            aset t (KT (k_meta_del k) (zmax_opt (k_latest k) (n_ts n))
+                       (k_blind k || negb (first_has_elem n))) ks1
           else ks1
       | None => ks1
       end
